@@ -253,3 +253,58 @@ fn c03_enter_wakes() {
     kani::cover!(ret == -1 && errno == libc::ETIME, "timed out");
     kani::cover!(ret == -1 && errno == libc::EBUSY, "hard error");
 }
+
+// =========================================================================================
+// ABI view of a submission entry for harness modules outside `io_uring` (whose `libc` module is private).
+// =========================================================================================
+pub(crate) mod abi {
+    use super::super::libc;
+    pub(crate) const OP_READ: u8 = libc::IORING_OP_READ as u8;
+    pub(crate) const OP_WRITE: u8 = libc::IORING_OP_WRITE as u8;
+    pub(crate) const OP_READV: u8 = libc::IORING_OP_READV as u8;
+    pub(crate) const OP_WRITEV: u8 = libc::IORING_OP_WRITEV as u8;
+    pub(crate) const OP_SEND: u8 = libc::IORING_OP_SEND as u8;
+    pub(crate) const OP_SEND_ZC: u8 = libc::IORING_OP_SEND_ZC as u8;
+    pub(crate) const OP_SENDMSG: u8 = libc::IORING_OP_SENDMSG as u8;
+    pub(crate) const OP_SENDMSG_ZC: u8 = libc::IORING_OP_SENDMSG_ZC as u8;
+    pub(crate) const OP_RECV: u8 = libc::IORING_OP_RECV as u8;
+    pub(crate) const OP_RECVMSG: u8 = libc::IORING_OP_RECVMSG as u8;
+    pub(crate) const FIXED_FILE: u8 = libc::IOSQE_FIXED_FILE;
+
+    /// The fields of io_uring_sqe by ABI position.
+    #[derive(Copy, Clone)]
+    pub(crate) struct Sqe {
+        pub opcode: u8,
+        pub flags: u8,
+        pub ioprio: u16,
+        pub fd: i32,
+        pub off: u64,
+        pub addr: u64,
+        pub len: u32,
+        pub op_flags: u32,
+        pub user_data: u64,
+        pub buf_group: u16,
+        pub personality: u16,
+        pub file_index: u32,
+        pub addr3: u64,
+    }
+    pub(crate) const ZERO: Sqe = Sqe { opcode: 0, flags: 0, ioprio: 0, fd: 0, off: 0, addr: 0, len: 0, op_flags: 0, user_data: 0, buf_group: 0, personality: 0, file_index: 0, addr3: 0 };
+
+    pub(crate) fn words(e: &Sqe) -> crate::io_uring::sq::verif_sq::W {
+        let mut s = crate::io_uring::sq::verif_sq::zero_sqe();
+        s.0.opcode = e.opcode;
+        s.0.flags = e.flags;
+        s.0.ioprio = e.ioprio;
+        s.0.fd = e.fd;
+        s.0.__bindgen_anon_1 = libc::io_uring_sqe__bindgen_ty_1 { off: e.off };
+        s.0.__bindgen_anon_2 = libc::io_uring_sqe__bindgen_ty_2 { addr: e.addr };
+        s.0.len = e.len;
+        s.0.__bindgen_anon_3 = libc::io_uring_sqe__bindgen_ty_3 { msg_flags: e.op_flags };
+        s.0.user_data = e.user_data;
+        s.0.__bindgen_anon_4.buf_group = e.buf_group;
+        s.0.personality = e.personality;
+        s.0.__bindgen_anon_5 = libc::io_uring_sqe__bindgen_ty_5 { file_index: e.file_index };
+        s.0.__bindgen_anon_6 = libc::io_uring_sqe__bindgen_ty_6 { optval: std::mem::ManuallyDrop::new(e.addr3) };
+        crate::io_uring::sq::verif_sq::sqe_bytes(&s)
+    }
+}
